@@ -30,7 +30,13 @@ type Case struct {
 // knownSwitches maps a known-finding key to the generator switches that keep
 // the campaign from re-deriving it.
 var knownSwitches = map[string][]string{
-	"addr-implicit-deref-index": {"addr-implicit-deref-index"},
+	"addr-implicit-deref-index":        {"addr-implicit-deref-index"},
+	"defer-args-not-copied":            {"op:defer-arg"},
+	"variadic-param-cap":               {"variadic-cap"},
+	"literal-elem-index-of-deref":      {"literal-elem-index-of-deref"},
+	"comma-ok-missing-key-keeps-value": {"comma-ok-missing-key", "op:lookup-loop"},
+	"range-assign-form-not-assigned":   {"op:range-assign"},
+	"tuple-assign-to-map-elem":         {"tuple-assign-to-map-elem"},
 }
 
 func config(ctx *vf.Ctx) map[string]bool {
@@ -237,7 +243,7 @@ func init() {
 	vf.Register(&vf.Check{
 		ID:    "C04",
 		Level: "exploration",
-		Rule:  "case = one program: a pool of 6-10 package-level or main-local variables of nested composite types (arrays, structs with int/array/slice/map/pointer/struct fields, arrays of structs, slices of slices, maps to structs/slices/arrays/pointers, pointers to these) initialised with full literals, then 10-60 steps drawn from {element/field update through any path, whole-value assignment, call with mutated parameter (by value, by pointer, returned, named result), range with mutation of the ranged container (array, &array, array[:], slice, *array, pointer to array), closures (direct capture, captured copy, parameter, stored and called later), local copy then mutate, p = &x, q := &x, swaps, i,a[i] = ..., s,s[i] = ..., append within and beyond capacity, append(s[:a], s[b:]...), overlapping copy, 2- and 3-index slicing, len/cap, map insert/delete/lookup/comma-ok/read-modify-write, &s[i] then reallocating append, two appends on one base}; every operation is guarded in the program text so the program cannot panic; after every step dump(step) prints the whole pool (pointers followed, never printed; len/cap of every slice; maps in key order); oracle = stdout of the native binary; non-trivial = at least one executed (guard true in the native run) step holding a copy-then-mutate pair on an array or struct or an append within capacity through an alias followed by a read of the other alias; distinct by source text",
+		Rule:  "case = one program: a pool of 6-10 package-level or main-local variables of nested composite types (arrays, structs with int/array/slice/map/pointer/struct fields, arrays of structs, slices of slices, maps to structs/slices/arrays/pointers, named array/slice/map types, pointers to these) initialised with full literals, then 10-60 steps drawn from {element/field update through any path, whole-value assignment, literal built from copies of places, make/new/zero value, call with mutated parameter (by value, by pointer, returned, named result, several results, variadic values and spread, deferred call), range with mutation of the ranged container (array, &array, array[:], slice, *array, pointer to array; := and = forms), closures (direct capture, captured copy, parameter, stored and called later, closure factory), local copy then mutate, boxing in interface{} and type assertion, conversion between named and unnamed types, p = &x, q := &x, swaps, i,a[i] = ..., s,s[i] = ..., append within and beyond capacity, append(s, s[i]), append(s[:a], s[b:]...), overlapping and cross copy, 2- and 3-index slicing, len/cap, map insert/delete/lookup/comma-ok (:= and =, in a loop)/read-modify-write, &s[i] then reallocating append, two appends on one base}; every operation is guarded in the program text so the program cannot panic; after every step dump(step) prints the whole pool (pointers followed, never printed; len/cap of every slice; maps in key order); oracle = stdout of the native binary (first differing step reported); non-trivial = at least one executed (guard true in the native run) step holding a copy-then-mutate pair on an array or struct or an append within capacity through an alias followed by a read of the other alias; distinct by source text; coverage keys guarded_steps / guarded_steps_skipped give the ratio of guarded steps whose guard was false",
 		Assumptions: []string{
 			"the installed Go toolchain (go1.23, language level go1.22) is the reference",
 			"the capacity of a slice after a growing append is not defined by the language: every append that grows clips its result to cap == len, so capacities printed and later in-place appends are defined",
